@@ -240,6 +240,14 @@ impl MT107 {
 
         // Parse Sequence C - Settlement Details
         // Note: duplicates remain enabled to allow parsing field 32B again
+        // Sequence B is mandatory: at least one transaction
+        if transactions.is_empty() {
+            return Err(crate::errors::ParseError::InvalidFormat {
+                message: "MT107: At least one transaction (sequence B, starting with field 21) is required"
+                    .to_string(),
+            });
+        }
+
         let settlement_field_32b = parser.parse_field::<Field32B>("32B")?;
         let settlement_field_19 = parser.parse_optional_field::<Field19>("19")?;
         let settlement_field_71f = parser.parse_optional_field::<Field71F>("71F")?;
